@@ -158,3 +158,38 @@ func VPatternString(p HandshakePattern) string {
 
 	return out + render(p.PreMessages) + "|" + render(p.Pattern)
 }
+
+// VBareServerConn builds a ServerConn that has no Go-Back-N connection on top
+// of it, with the given receive and send stream ids, so that its stream
+// functions can be driven directly.
+func VBareServerConn(ctx context.Context, client hashmailrpc.HashMailClient,
+	receiveSID, sendSID [64]byte) *ServerConn {
+
+	ctxc, cancel := context.WithCancel(ctx)
+	c := &ServerConn{
+		client: client,
+		cancel: cancel,
+		quit:   make(chan struct{}),
+		status: ServerStatusNotConnected,
+		log:    log,
+	}
+	c.connKit = &connKit{
+		ctx:        ctxc,
+		impl:       c,
+		receiveSID: receiveSID,
+		sendSID:    sendSID,
+	}
+
+	return c
+}
+
+// VSendToStream calls the send function the ServerConn hands to Go-Back-N.
+func (c *ServerConn) VSendToStream(ctx context.Context, b []byte) error {
+	return c.sendToStream(ctx, b)
+}
+
+// VRecvFromStream calls the receive function the ServerConn hands to
+// Go-Back-N.
+func (c *ServerConn) VRecvFromStream(ctx context.Context) ([]byte, error) {
+	return c.recvFromStream(ctx)
+}
